@@ -153,6 +153,7 @@ def run(ctx):
 
     # ------------------------------------------------------------------ R10.6
     r = ctx.rule("R10.6", "only unconsumed input is retained: TransformStream::write leaves has_buffered_data = false exactly when the parser consumed the whole chunk (strict `consumed < chunk.len()` for the buffering branch), so completely parsed chunks are never copied into the charged parsing buffer", "E-MIR", floor=3)
+    sm.clause_directive_after_token(r, mir)
     w = mir.fn("TransformStream::write")
     cmp_ = [(bi, st["rv"]["op"], w.deep(st["rv"]["a"]), w.deep(st["rv"]["b"])) for bi, b in enumerate(w.blocks) for st in b["stmts"]
             if st["k"] == "assign" and st["rv"]["k"] == "bin" and st["rv"]["op"] in ("Lt", "Le", "Gt", "Ge", "Eq", "Ne") and "len(chunk)" in w.deep(st["rv"]["a"]) + w.deep(st["rv"]["b"])]
